@@ -289,6 +289,13 @@ impl SpanContext {
             parts.next(),
         ) {
             (Some("00"), Some(trace_id), Some(span_id), Some(sampled), None) => {
+                // `from_str_radix` also accepts a leading sign, which is not a hex digit.
+                if [trace_id, span_id, sampled]
+                    .iter()
+                    .any(|field| !field.bytes().all(|b| b.is_ascii_hexdigit()))
+                {
+                    return None;
+                }
                 let trace_id = u128::from_str_radix(trace_id, 16).ok()?;
                 let span_id = u64::from_str_radix(span_id, 16).ok()?;
                 let sampled = u8::from_str_radix(sampled, 16).ok()? & 1 == 1;
